@@ -359,7 +359,7 @@ func runGuarded(f func()) (fault string) {
 }
 
 var defaultInitPackages = []string{
-	"time", "strconv", "strings", "unicode", "unicode/utf8", "math", "math/bits",
+	"time", "fmt", "strconv", "strings", "unicode", "unicode/utf8", "math", "math/bits",
 	"sort", "bytes", "sync", "sync/atomic", "encoding/binary", "io", "math/big",
 	"internal/bytealg", "internal/itoa", "internal/stringslite", "unicode/utf16",
 }
